@@ -153,9 +153,14 @@ func (r *Runner) judgeVerify(op *ClientOp) {
 		}
 		quorum := len(voters)/2 + 1
 		got, fresh := map[string]bool{}, map[string]bool{}
-		nonvoterAck := false
+		nonvoterAck, removedAck := false, false
 		for _, a := range w.O.Acks(in.ID()) {
 			if !a.Success || a.Term != T || a.RecvSeq <= op.InvokeSeq || a.RecvSeq > op.ReturnSeq {
+				continue
+			}
+			if w.O.NotMemberAt(in.ID(), a.Peer, a.RecvSeq, T) {
+				// the leader had already removed this server when its answer came in
+				removedAck = true
 				continue
 			}
 			if !voters[a.Peer] {
@@ -177,10 +182,13 @@ func (r *Runner) judgeVerify(op *ClientOp) {
 			if nonvoterAck {
 				v.sig = "C09/R1/acks-from-nonvoters-counted"
 			}
+			if removedAck {
+				v.sig = "C09/R1/acknowledgement-of-a-removed-server-counted"
+			}
 			if self == 0 {
 				v.sig = "C09/R1/leader-not-a-voter-counts-itself"
 			}
-			v.detail = fmt.Sprintf("voters {%v} quorum %d; voters that acknowledged inside the call window: %v (+self=%d); non-voter acks seen: %v", keys(voters), quorum, keys(got), self, nonvoterAck)
+			v.detail = fmt.Sprintf("voters {%v} quorum %d; voters that acknowledged inside the call window: %v (+self=%d); non-voter acks seen: %v; answers of servers the leader had already removed: %v", keys(voters), quorum, keys(got), self, nonvoterAck, removedAck)
 		} else if !v.freshOK {
 			v.sig = "C09/R3/counted-acknowledgements-made-before-the-call"
 			v.detail = fmt.Sprintf("only %v acknowledged (handled a request) after the call was made (quorum %d, +self=%d); %v answered in the window", keys(fresh), quorum, self, keys(got))
